@@ -501,8 +501,14 @@ impl<H: DnsHandle> DnssecDnsHandle<H> {
             proof.0 = self.is_dnskey_in_root_store(&dnskey);
         }
 
+        // A DNSKEY RRset that consists of trust anchors only is accepted without a signature (see
+        // below). Keys that merely match a DS record do not count: the DS-matched key has to have
+        // signed the RRset (RFC 4035 section 5.2).
+        let all_trust_anchors =
+            !dnskey_proofs.is_empty() && dnskey_proofs.iter().all(|p| p.0.is_secure());
+
         // if not all of the DNSKEYs are in the root store, then we need to look for DS records to verify
-        let ds_records = if !dnskey_proofs.iter().all(|p| p.0.is_secure()) && !key.name.is_root() {
+        let ds_records = if !all_trust_anchors && !key.name.is_root() {
             // Need to get DS records for each DNSKEY.
             // Every DNSKEY other than the root zone's keys may have a corresponding DS record.
             self.fetch_ds_records(Name::from(&key.name), options)
@@ -581,7 +587,7 @@ impl<H: DnsHandle> DnssecDnsHandle<H> {
         }
 
         // if it was just the root DNSKEYS with no RRSIG, we'll accept the entire set, or none
-        if dnskey_proofs.iter().all(|(proof, ..)| proof.is_secure()) {
+        if all_trust_anchors {
             let proof = dnskey_proofs.pop().unwrap(/* This can not happen due to above test */);
             return Ok(RrsetProof {
                 proof: proof.0,
